@@ -2,7 +2,7 @@
    Statements only. [tie] = how an exact coincidence of an arrival and a timer is resolved; every
    theorem holds for both resolutions. *)
 From Coq Require Import List NArith.
-From EZK Require Import Gen.Tables Model.Tsx Proofs.C05.
+From EZK Require Import Model.Forms10 Proofs.Forms10 Gen.Tables Model.Tsx Proofs.C05.
 Import ListNotations.
 Open Scope N_scope.
 
@@ -69,3 +69,13 @@ Example C05_example_invite :
   client_invite true false [(700, Prov); (40000, Fail); (40100, Fail); (80000, Fail)] =
   [Send 0; Send 500; Got 700 Prov; AckSent 40000; Got 40000 Fail; Done 40000; AckSent 40100].
 Proof. vm_compute. reflexivity. Qed.
+
+(* "a non-INVITE transaction yields exactly one final response": receive_final discards every provisional response, however many come *)
+Theorem C05_receive_final_guard : receive_final_loops = true.
+Proof. reflexivity. Qed.
+
+Theorem C05_receive_final_yields_the_final : receive_final_loops = true -> forall provisionals, receive_final provisionals = true.
+Proof. exact receive_final_here. Qed.
+
+Theorem C05_receive_final_once_refuted : forall provisionals, (2 <= provisionals)%nat -> receive_final_form false provisionals = false.
+Proof. exact receive_final_once_refuted. Qed.
